@@ -100,6 +100,11 @@ class Env(object):
     def _link_row(cols, g, t):
         return tuple(g if c.lower().startswith('g') else t for c in cols)
 
+    def table_cols(self, table):
+        if not hasattr(self, '_cols'): self._cols = {}
+        if table not in self._cols: self._cols[table] = [r[1] for r in self.raw.execute('pragma table_info("%s")' % table)]
+        return self._cols[table]
+
     def dump(self):
         try:
             return {t: self.raw.execute('select * from "%s" order by 1, 2' % t).fetchall() for t in self.tables}
@@ -435,6 +440,27 @@ def held_in_memory(pre_obj, op, world=None):
         return isinstance(sd, dict) and sd['full']
     return False
 
+def collection_truth(E, R, o, attr_id, dump):
+    """world indices of the items of collection `attr` of object o according to the raw database dump (None: not derivable)"""
+    a = E.attrs[attr_id]; rev = a.reverse
+    if o._pkval_ is None: return None
+    def idx_of(ent, pk):
+        for i, x in enumerate(R.objs):
+            if isinstance(x, ent) and x._pkval_ == pk: return i
+        cls = ent
+        return 1000 + 100 * E.entities.index(cls) + pk
+    if rev.is_collection:
+        table = a.table if isinstance(a.table, str) else a.table[-1]
+        cols = E.table_cols(table)
+        mine, other = cols.index(rev.columns[0]), cols.index(a.columns[0])
+        return [idx_of(a.py_type, r[other]) for r in dump[table] if r[mine] == o._pkval_]
+    table = rev.entity._root_._table_
+    table = table if isinstance(table, str) else table[-1]
+    cols = E.table_cols(table)
+    c = cols.index(rev.columns[0])
+    return [idx_of(rev.entity, r[0]) for r in dump[table] if r[c] == o._pkval_]
+
+
 def oracle(ctx, R, E, case, op, kind, o_i, pre, post, extra_pre, extra_post, out, events, dump_pre, dump_post, ambient, live_val):
     status = pre['objs'][o_i]['status']
     # a strict session that had a connection must leave nothing readable (a strict session that never connected is not detached
@@ -491,6 +517,21 @@ def oracle(ctx, R, E, case, op, kind, o_i, pre, post, extra_pre, extra_post, out
             if err and not refused:
                 viol('a read that needs the database on an object of a finished session raises %s instead of a session-is-over error' % err,
                      'read-unloaded:%s:%s' % (k, err), out, 'DatabaseSessionIsOver')
+        # independent truth for collection answers (held or answered from partial knowledge): after a session that COMMITTED the
+        # database holds exactly what the session saw, so the answer must agree with the rows read through the raw connection
+        if not err and case['ending'] == 'commit' and status not in DEL and k in ('collCopy', 'collLen', 'collCount', 'collIsEmpty', 'collContains') \
+                and 'unreadable' not in dump_pre:
+            truth = collection_truth(E, R, R.objs[o_i], op['attr']['id'], dump_pre)
+            if truth is not None:
+                v = out.get('value')
+                if k == 'collCopy': exp = {'items': sorted(truth)}
+                elif k in ('collLen', 'collCount'): exp = len(truth)
+                elif k == 'collIsEmpty': exp = not truth
+                else: exp = op['item'] in truth
+                ctx.count('truth-checked:%s:%s' % (k, 'held' if held else 'from-partial-knowledge'))
+                if v != exp:
+                    viol('a collection read on an object of a finished (committed) session gave an answer that differs from the database', 'read-wrong-answer:%s' % k,
+                         out, {'value': exp})
         if err and not unchanged_mod_rbits:
             viol('a failing read changed the object of a finished session', 'read-changed:%s' % k, diff_worlds(pre, post), 'unchanged')
         if not err and k != 'collIsEmpty' and not unchanged_mod_rbits:
